@@ -16,7 +16,7 @@ import itertools
 import struct
 
 from mc import core, explore, seams
-from mc.world import World
+from mc.world import World, open_datagram
 from mc.pair import DeliveryMonitor, app_send, payload, quiescent
 
 core.import_repo()
@@ -245,7 +245,7 @@ def order_work(arg):
 
 def scenario(params, ch):
     direction, msgs, blackout, order, latency = params
-    mon = DeliveryMonitor(flag_delivery=True)
+    mon = DeliveryMonitor(flag_delivery=True, flag_stale_window_duplicates=False)
     w = World(order=order, latency=latency, chooser=ch, monitors=[mon])
     sender = direction[0]
     recv = "s" if sender == "c" else "c"
@@ -260,7 +260,32 @@ def scenario(params, ch):
             e = app_send(w, mon, sender, data, retry)
             if e is not None:
                 ch.flag("send-raises", "send raised %s" % type(e).__name__, repr(e))
-        if blackout:
+        if blackout and blackout[0] == "hole+ack":
+            # the full-size fragments are lost for a while, the small last fragment gets through but its acks are lost
+            # too, and a burst of > 256 small messages moves the receiver's message window past it: later copies of
+            # the received fragment are accepted as new
+            _, start, ticks, thr, burst = blackout
+            w.run(start)
+            until = w.tickno + ticks
+            src = "s" if sender == "s" else "c0"
+
+            def rule(w_, d):
+                # every datagram that carries a fragment other than the LAST of its message is lost for a while
+                if w_.tickno >= until or d.src != src:
+                    return False
+                for seq, t, pl in (open_datagram(w_, d) or []):
+                    if t == 7 and len(pl) >= 6:
+                        fid, idx, cnt = struct.unpack(">HHH", pl[:6])
+                        if idx != cnt:
+                            return True
+                return False
+            w.drop_rule = rule
+            w.start_blackout("s2c" if sender == "c" else "c2s", ticks)
+            w.fates = []
+            for k in range(burst):
+                app_send(w, mon, sender, b"b%c%c" % (k % 251, k // 251), "none")
+            blackout = (None, start, ticks)
+        elif blackout:
             bdir, start, ticks = blackout
             w.run(start)
             w.start_blackout(bdir, ticks)
@@ -366,6 +391,11 @@ def fault_params(tier):
                     b = (d_dir if b[0] == "data" else a_dir, b[1], b[2])
                 for order, latency in cfgs:
                     out.append((direction, msgs, b, order, latency))
+        for size, ticks in ((5000, 100), (2500, 100), (5000, 160)):
+            if tier == "quick" and ticks == 160:
+                continue
+            out.append((direction, ((size, "retry"),), ("hole+ack", 2, ticks, 1000, 300), "cs", 1))
+            out.append((direction, ((size, "best"), (40, "retry")), ("hole+ack", 2, ticks, 1000, 300), "cs", 1))
     return out
 
 
@@ -406,14 +436,14 @@ def run(tier, seed):
         fold(r[2])
     # part 3
     plist = fault_params(tier)
-    st = explore.explore_all("checks.c06", "scenario", plist, 2, time_budget=(200 if tier == "quick" else 1800))
+    st = explore.explore_all("checks.c06", "scenario", plist, 2, time_budget=(1000 if tier == "quick" else 3600))
     sig_counts = getattr(st, "sig_counts", {})
     for v in st.violations:
         key = (v["oracle"], v["sig"])
         if key not in acc:
             acc[key] = [sig_counts.get(key, 1), {"part": "faults", "params": v["params"], "choices": v["choices"], "labels": v["labels"]}, v["message"] + " | params=%r deviations=%r" % (v["params"], v["labels"])]
     tc_params = [(sizes, retry, order) for sizes in ((1700, 40), (2600,), (1700, 1800)) for retry in ("none", "retry") for order in (("cs",) if tier == "quick" else ("cs", "sc"))]
-    st_tc = explore.explore_all("checks.c06", "two_client_scenario", tc_params, 1 if tier == "quick" else 2, time_budget=(120 if tier == "quick" else 900))
+    st_tc = explore.explore_all("checks.c06", "two_client_scenario", tc_params, 1 if tier == "quick" else 2, time_budget=(900 if tier == "quick" else 1800))
     for v in st_tc.violations:
         key = (v["oracle"], v["sig"])
         if key not in acc:
